@@ -3,6 +3,8 @@
      runx  <sst wire|-> <cells>        M only, on raw event lists (cells: attrs@events|…)
      runs  <sst wire|-> <sheet wire>   M only: the shared-string part and the events that follow
                                        <sheetData>, through read_sheet_cells -> rhex=value/…
+     runf  <sheet wire>                M only: the same events through read_sheet_formulas
+                                       (worksheet_formula) -> rhex=N|T<hex>|X/…
      ods   <cells>                     encode, M, S, known for ods cells
      runo  <cells>                     M only (cells: namehex@attrs@events|…)
      wide  <hex bytes>                 xlsb wide_str
@@ -104,6 +106,10 @@ let show_out show = function
   | Panic -> "panic"
   | OutOfFuel -> "fuel"
 let show_known = function None -> "-" | Some k -> "F" ^ string_of_n k
+let show_fval = function
+  | FvNone -> "N"
+  | FvText s -> "T" ^ hex_of_s s
+  | FvOutside -> "X"
 
 let ascii s = List.map (fun c -> n_of_int (Char.code c)) (List.init (String.length s) (String.get s))
 
@@ -128,12 +134,13 @@ let cmd_xlsx pfxh itemsh cellsh =
       match stored_text items st with
       | Some s -> show_cell (cell_expected st s)
       | None -> "?") stores) in
-  let known = String.concat "/" (List.map (fun st -> show_known (known_xlsx pfx items st)) stores) in
+  let known = String.concat "/" (List.map (fun st -> show_known (known_xlsx items st)) stores) in
+  let fspec = String.concat "/" (List.map (fun st -> show_fval (formula_expected st)) stores) in
   let legal = String.concat "/" (List.map (fun st ->
       if legal_store st && List.for_all (fun (_, f) -> legal_form f) items then "1" else "0") stores) in
   String.concat "#" [wire sst;
                      String.concat "|" (List.map (fun (a, e) -> wire_attrs a ^ "@" ^ wire e) cells);
-                     model; spec; known; legal]
+                     model; spec; known; legal; fspec]
 
 let parse_raw_cell s =
   match String.split_on_char '@' s with
@@ -163,6 +170,15 @@ let cmd_runs ssth sheeth =
   | Err _ -> "openerr"
   | Panic -> "openpanic"
   | OutOfFuel -> "openfuel"
+
+let cmd_runf sheeth =
+  match read_sheet_formulas (unwire sheeth) with
+  | Ok cells ->
+    String.concat "/" (List.map (fun (ca, v) ->
+        (match get_attribute ca Lit.a_r with Some r -> hex_of_s r | None -> "-") ^ "=" ^ show_fval v) cells)
+  | Err _ -> "err"
+  | Panic -> "panic"
+  | OutOfFuel -> "fuel"
 
 (* ---------- ods storage forms ---------- *)
 (* piece: l<hex> | d<hex> | s | s<hexdigits> | T | B | o<hexstyle> | x | O *)
@@ -241,6 +257,7 @@ let handler (args : string list) : string =
   | ["xlsx"; p; i; c] -> cmd_xlsx p i c
   | ["runx"; s; c] -> cmd_runx s c
   | ["runs"; s; c] -> cmd_runs s c
+  | ["runf"; c] -> cmd_runf c
   | ["ods"; c] -> cmd_ods c
   | ["runo"; c] -> cmd_runo c
   | ["wide"; h] -> cmd_wide h
